@@ -187,6 +187,8 @@ pub enum QKind {
     WeightOverride,
     Grid,
     FarCoord,
+    /// valid JSON that is not an object (a malformed query: it must become an error response of its own)
+    NonObject,
 }
 
 /// one query. `_qid` makes every original query distinguishable.
@@ -217,12 +219,25 @@ pub fn gen_query(r: &mut Rng, w: &World, pc: &PluginChoice, qid: usize, failing_
             QKind::WrongType
         } else if roll < 82 {
             QKind::WeightOverride
-        } else if roll < 95 {
+        } else if roll < 93 {
             QKind::Grid
+        } else if roll < 96 {
+            QKind::NonObject
         } else {
             QKind::FarCoord
         }
     };
+    if kind == QKind::NonObject {
+        let v = match r.below(6) {
+            0 => json!(5),
+            1 => json!("text"),
+            2 => Value::Null,
+            3 => json!(true),
+            4 => json!(1.5),
+            _ => json!(format!("query-{}", qid)),
+        };
+        return (v, kind);
+    }
     let mut q = json!({"_qid": qid});
     let put_od = |q: &mut Value, o: usize, d: Option<usize>| {
         if pc.rtree || pc.lb == Some("haversine") {
@@ -241,7 +256,7 @@ pub fn gen_query(r: &mut Rng, w: &World, pc: &PluginChoice, qid: usize, failing_
         }
     };
     match kind {
-        QKind::Valid | QKind::WeightOverride | QKind::Grid | QKind::FarCoord => put_od(&mut q, o, Some(d)),
+        QKind::Valid | QKind::WeightOverride | QKind::Grid | QKind::FarCoord | QKind::NonObject => put_od(&mut q, o, Some(d)),
         QKind::SameOD => put_od(&mut q, o, Some(o)),
         QKind::NoDest => put_od(&mut q, o, None),
         QKind::OutOfRange => {
@@ -340,6 +355,12 @@ pub fn gen_query(r: &mut Rng, w: &World, pc: &PluginChoice, qid: usize, failing_
         cs.dedup();
         q["road_classes"] = json!(cs);
     }
+    if r.chance(0.15) {
+        // a free-text field the user wants echoed (and possibly mapped to a CSV column): commas, line
+        // breaks, tabs and non-ASCII text are all legal JSON strings. (No double quotes: the writer renders
+        // cells as JSON, whose backslash escape no CSV reader understands - a recorded observation.)
+        q["label"] = json!(*r.pick(&["plain", "with, comma", "two\nlines", "tab\there", "cr\r\nlf", "gr\u{fc}n \u{2713}", "", "trailing,"]));
+    }
     if pc.lb == Some("custom") {
         // mostly ordinary estimates; sometimes ties, zero, negative or huge ones (all legal numbers)
         q["w"] = match r.below(20) {
@@ -369,11 +390,18 @@ pub fn gen_out_file(r: &mut Rng, w: &World) -> OutFile {
             ("origin", json!({"optional": "request.origin_vertex"})),
             ("edges", json!({"optional": "route_edges"})),
             ("strict_cost", json!("route.cost.total_cost")),
+            ("label", json!({"optional": "request.label"})),
+            ("label", json!({"optional": "request.label"})),
         ];
         let mut idx: Vec<usize> = (0..pool.len()).collect();
         r.shuffle(&mut idx);
         let n = r.range(1, 6) as usize;
-        let mapping: Vec<(String, Value)> = idx.into_iter().take(n).map(|i| (pool[i].0.to_string(), pool[i].1.clone())).collect();
+        let mut mapping: Vec<(String, Value)> = vec![];
+        for i in idx.into_iter().take(n) {
+            if !mapping.iter().any(|m| m.0 == pool[i].0) {
+                mapping.push((pool[i].0.to_string(), pool[i].1.clone()));
+            }
+        }
         OutFormat::Csv { mapping, sorted: r.chance(0.5) }
     };
     let _ = w;
